@@ -332,6 +332,9 @@ fn hoist_range_clone(x: &Range<usize>) -> (r: Range<usize>) ensures r == *x { x.
 fn hoist_arc_to_vec(a: &Arc<[u8]>) -> (r: Vec<u8>) ensures r@ == (**a)@ { (&**a).into() }
 #[verifier::external_body]
 fn hoist_into_arc(v: Vec<u8>) -> (r: Arc<[u8]>) ensures (*r)@ == v@ { v.into() }
+// R7: the deref coercion `&Arc<[u8]> -> &[u8]` at a call `decode(<&Arc<[u8]>>, ..)` (not in the pinned text; hardening round 3)
+#[verifier::external_body]
+fn hoist_arc_slice<'a>(a: &'a Arc<[u8]>) -> (r: &'a [u8]) ensures r@ == (**a)@ { &**a }
 
 // crypt.rs:547 (abstract callee; Algorithm 1 / 1.A: unit decrypt). The real parameter is `&'buf mut [u8]` and the result
 // borrows from it; the call site passes `&mut data` with `data: Vec<u8>`.
@@ -389,6 +392,14 @@ impl<B: Backend, OC, SC, L> Storage<B, OC, SC, L> {
         } else { None }
     }
 //@@ Storage::decode
+}
+//@@ struct StorageResolver
+#[verifier::external_body]
+fn hoist_slice_into_arc(s: &[u8]) -> (r: Arc<[u8]>) ensures (*r)@ == s@ { s.into() }
+#[verifier::external_body]
+fn hoist_no_filters() -> (r: &'static [StreamFilter]) ensures r@.len() == 0 { &[] }
+impl<'a, B: Backend, OC, SC, L> StorageResolver<'a, B, OC, SC, L> {
+//@@ StorageResolver::stream_data
 }
 
 
